@@ -263,10 +263,12 @@ def scenario(case, files):
             stop = threading.Event(); R = p.probe_rpc_class()
             from ncclient.transport.errors import TransportError
             def spam():
-                while not stop.is_set() and len(r.rpcs) < 400:
+                while not stop.is_set() and len(r.rpcs) < 5000:
                     q = R(r.s, dh, async_mode=True, timeout=5); q.rid = q._id
                     try: q.request(); r.rpcs.append(q)
                     except TransportError: break
+                    time.sleep(0.0005)
+            r.s.join_pause = 0.03                 # the submitter gets time between the end of the worker and the end of close()
             th = threading.Thread(target=spam); th.start(); time.sleep(0.02)
             r.s.close(); r.t_ret = p.now(); stop.set(); th.join()
         elif path == 'peer_drop':
@@ -416,6 +418,7 @@ def observe(case, r):
         o['client_close_returned'] = tcl is not None
         o['late_calls'] = len([c for c in s.probe.calls if tcl is not None and c[1] > tcl])
         o['close_raised'] = list(s.close_raised)
+        o['close_max_s'] = round(max(s.close_durations), 2) if s.close_durations else None
         st = {'replied': [], 'failed': [], 'open': [], 'bad_error': []}
         from ncclient.transport.errors import TransportError as TE
         for q in r.rpcs:
@@ -448,6 +451,8 @@ def oracle(case, r, o):
     if o.get('send_after') != 'TransportError' and (o.get('client_close_returned') or r.extra.get('worker_closed_itself')):
         bad.append(('send after close: %s' % o.get('send_after'), None))
     if o.get('close_raised'): bad.append(('close() raised %s' % o['close_raised'], None))
+    if o.get('close_max_s') is not None and o['close_max_s'] > BOUND:
+        bad.append(('close() took %.1f s (worker did not end within %.1f s of the close call)' % (o['close_max_s'], BOUND), None))
     if r.raised and r.raised.startswith('second close'): bad.append((r.raised, None))
     st = o.get('reqs', {})
     if st.get('open'): bad.append(('%d request(s) in flight at close neither answered nor failed' % len(st['open']), None))
@@ -512,8 +517,18 @@ def cleanup(r):
         if r.server is not None and hasattr(r.server, 'stop'): r.server.stop()
     except Exception: pass
 
+WATCHDOG = 12.0
 def run_case(case, files, model):
-    r = scenario(case, files)
+    box = {}
+    def go():
+        try: box['r'] = scenario(case, files)
+        except BaseException as e: box['e'] = e
+    th = threading.Thread(target=go, daemon=True, name='c12-scenario'); th.start(); th.join(WATCHDOG)
+    if th.is_alive():
+        what = 'the close path did not return within %.0f s (close() blocked: the worker thread never ends)' % WATCHDOG
+        return dict(obs={'hung': True}, bad=[(what, None)], labels=[], model=None, impl=None, diffs=[])
+    if 'e' in box: raise box['e']
+    r = box['r']
     try:
         o = observe(case, r)
         bad = oracle(case, r, o)
